@@ -343,7 +343,7 @@ static iwrc _exfile_write(struct IWFS_EXT *f, off_t off, const void *buf, size_t
     if ((wp > 0) && (s->off <= off) && (s->off + s->len > off)) {
       len = MIN(wp, s->off + s->len - off);
       if (impl->dlsnr) {
-        rc = impl->dlsnr->onwrite(impl->dlsnr, off - s->off, (const char*) buf + (siz - wp), len, 0);
+        rc = impl->dlsnr->onwrite(impl->dlsnr, off, (const char*) buf + (siz - wp), len, 0);
         RCGO(rc, finish);
       }
       memcpy(s->mmap + (off - s->off), (const char*) buf + (siz - wp), (size_t) len);
